@@ -113,13 +113,20 @@ def xfRowsMy {σ} (f : Xf σ) (t : Table) (cols : List Name) : List (List Cell) 
     | none => none
     | some (r', st') => (xfRowsMy f t cols rs st').map fun (o, st'') => (r' :: o, st'')
 
+/-- `encryptInsertQuery` (MySQL): the VALUES rows when a column list is known and the source is a VALUES
+list (`switch rows := insert.Rows.(type) { case sqlparser.Values: … }` – an `INSERT … SELECT` is not looked
+at, known finding `insert-select-plaintext`), then the `ON DUPLICATE KEY UPDATE` assignments through
+`encryptUpdateExpressions` (all targets resolve to the statement's table). -/
 def xfInsertMy {σ} (f : Xf σ) (sch : Schema) (i : Insert) (st : σ) : Option (Insert × σ) :=
   match sch.table i.table with
   | none => some (i, st)
   | some t =>
     let cols := insertColumns t i
-    if cols.isEmpty then some (i, st) else
-    (xfRowsMy f t cols i.rows st).map fun (rows, st') => ({ i with rows := rows }, st')
+    let rowsR := if cols.isEmpty || i.fromSelect then some (i.rows, st) else xfRowsMy f t cols i.rows st
+    match rowsR with
+    | none => none
+    | some (rows, st') =>
+      (xfSets f t i.onDup st').map fun (od, st'') => ({ i with rows := rows, onDup := od }, st'')
 
 /-- the statement as the MySQL query encryptor hands it on -/
 def forwardStmtMy (c : CryptoOps) (kv : KeyView) (sch : Schema) (s : Stmt) (rnd : Bytes) : Stmt :=
